@@ -14,8 +14,18 @@ an accepted trace IS a run of the model. Invisible steps are inserted as follows
   `closingSeen`, `decide`, `closeChan`, `lock`, `waitZero`; immediately after: `finish` (after the
   connection close).
 Events that are observations rather than steps (`raddr` — the `RemoteAddr` evaluation `Serve` performs
-between `Accept` and `go handleLoop` —, `rd`, `obs`, `resp`, `eof`) filter the candidates by a
+between `Accept` and `go handleLoop` —, `rd`, `obs`, `resp`, `cresp`, `eof`) filter the candidates by a
 predicate on the state.
+
+Round 3. ENVIRONMENT labels are applied only when the trace contains the harness event that justifies
+them: `tunnelEnd` / `peeked false` / `readErr` need `tcl:k` (the harness closed the client's or the
+target's end of connection k), `writeErr` needs `cx:k` (the harness client aborted while the response was
+being written), `peeked true` / `handshakeEnd` need `tls:k` (the harness client started its TLS
+handshake). A proxy that tears down a tunnel or abandons a response write on its own is therefore
+rejected. On the decrypted side of a MITM'd tunnel (`secure`) the response writes are not observable in
+clear: `decide; writeStart; writeEnd` are inserted on demand before the client-side `resp`, the next
+`rqs` or the handler's `cc`, and at `eof` the client must have seen every recorded response.
+Further `Close()` callers: every `call` after the first is `closeCall2`, `panic` is `closeChan2`.
 -/
 namespace Martian.Drv.C07
 open Martian Martian.Shutdown
@@ -25,8 +35,12 @@ def init : St := ()
 
 /-- Environment facts accumulated from the trace (identical for all candidates). -/
 structure Env where
-  sent : List (List Bool) := []   -- per connection: `Connection: close` flag of each complete request sent
-  resps : List Nat := []          -- per connection: complete responses the client has seen
+  sent : List (List (Option Bool)) := []   -- per connection: each complete request sent: `some close-flag`, `none` = CONNECT
+  resps : List Nat := []          -- per connection: complete (non-CONNECT) responses the client has seen
+  peerDone : List Bool := []      -- per connection: the harness closed the client's / target's end (`tcl`)
+  aborted : List Bool := []       -- per connection: the harness client aborted during a response write (`cx`)
+  tls : List Bool := []           -- per connection: the harness client started a TLS handshake (`tls`)
+  h2 : List Bool := []            -- per connection: an HTTP/2 session was negotiated and used (`h2`)
 
 def getD {α} (l : List α) (k : Nat) (d : α) : α := (l[k]?).getD d
 
@@ -71,6 +85,22 @@ def pcOf (s : Sys) (k : Nat) : Option Pc := (s.hs[k]?).map (·.pc)
 
 def bit (s : String) : Option Bool := if s = "1" then some true else if s = "0" then some false else none
 
+def tryAll (s : Sys) (ls : List Label) : Sys := ls.foldl tryStep s
+
+/-- Secure (MITM'd) handler: the response write of the current exchange, which is not observable. -/
+def catchUpWrite (s : Sys) (k : Nat) : Sys :=
+  match s.hs[k]? with
+  | some h => if h.secure then tryAll s [.h k .decide, .h k .writeStart, .h k .writeEnd] else s
+  | none => s
+
+/-- Steps of the client of a MITM'd tunnel up to the serving loop, justified by `tls:k`. -/
+def catchUpTls (env : Env) (s : Sys) (k : Nat) : Sys :=
+  if getD env.h2 k false then
+    -- the HTTP/2 session: it stops by itself once `closing` is closed; otherwise only when a peer ended it
+    let s := tryAll s [.h k (.peeked true), .h k (.handshakeEnd .h2), .h k .h2Stop]
+    if getD env.peerDone k false then tryStep s (.h k .h2PeerEnd) else s
+  else if getD env.tls k false then tryAll s [.h k (.peeked true), .h k (.handshakeEnd .h1)] else s
+
 /-- One visible event on one candidate. -/
 def applyEv (env : Env) (s : Sys) (ev : List String) : Option Sys :=
   match ev with
@@ -100,38 +130,78 @@ def applyEv (env : Env) (s : Sys) (ev : List String) : Option Sys :=
     | some k => some (tryStep s (.h k .firstByte))
     | none => none
   | ["snd", _, "f", _] => some s
+  | ["snd", _, "c"] => some s
   | ["rqs", k] =>
     match k.toNat? with
     | some k => match s.hs[k]? with
-      | some h =>
-        match (getD env.sent k [])[h.reqs]? with
-        | some rc => runAll s [.h k (.gotReq rc), .h k .reqmodStart]
+      | some _ =>
+        let s := catchUpTls env (catchUpWrite s k) k
+        match s.hs[k]? with
+        | some h =>
+          match (getD env.sent k [])[h.reqs]? with
+          | some (some rc) => runAll s [.h k (.gotReq rc), .h k .reqmodStart]
+          | some none => runAll s [.h k .gotConnect, .h k .reqmodStart]
+          | none => none
         | none => none
+      | none => none
+    | none => none
+  | ["hj", k] => k.toNat?.bind fun k => step s (.h k .hijack)
+  | ["dls", k] => k.toNat?.bind fun k => step s (.h k .dialStart)
+  | ["dle", k, ok] => k.toNat?.bind fun k => (bit ok).bind fun ok => step s (.h k (.dialEnd ok))
+  | ["tcl", _] => some s
+  | ["cx", _] => some s
+  | ["tls", _] => some s
+  | ["h2", _] => some s
+  | ["panic"] =>
+    let s := if s.cpc = .called then tryStep s .closeChan else s
+    step s .closeChan2
+  | ["cresp", k] =>
+    match k.toNat? with
+    | some k => match s.hs[k]? with
+      | some h => if h.cresps ≥ 1 ∨ h.pc = .cwriting then some s else none
       | none => none
     | none => none
   | ["rqe", k] => k.toNat?.bind fun k => step s (.h k .reqmodEnd)
   | ["rts", k] => k.toNat?.bind fun k => step s (.h k .rtStart)
   | ["rte", k, rc] => k.toNat?.bind fun k => (bit rc).bind fun rc => step s (.h k (.rtEnd rc))
-  | ["rms", k] => k.toNat?.bind fun k => step s (.h k .resmodStart)
+  | ["rms", k] => k.toNat?.bind fun k =>
+      -- MITM: the 200 of a CONNECT is synthesised right after the request modifier
+      let s := if pcOf s k = some .postReqmod then tryStep s (.h k .mitmAccept) else s
+      step s (.h k .resmodStart)
   | ["rme", k] => k.toNat?.bind fun k => step s (.h k .resmodEnd)
   | ["ws", k, b] =>
     match k.toNat?, bit b with
     | some k, some b =>
-      let s := if pcOf s k = some .postResmod then tryStep s (.h k .decide) else s
-      match step s (.h k .writeStart) with
-      | some s' => if pcOf s' k = some (.writing b) then some s' else none
+      match s.hs[k]? with
+      | some h =>
+        if h.pc = .postResmod ∧ h.conn ≠ .no then step s (.h k .cwriteStart) else
+        let s := if pcOf s k = some .postResmod then tryStep s (.h k .decide) else s
+        match step s (.h k .writeStart) with
+        | some s' => if pcOf s' k = some (.writing b) then some s' else none
+        | none => none
       | none => none
     | _, _ => none
-  | ["we", k] => k.toNat?.bind fun k => step s (.h k .writeEnd)
+  | ["we", k] => k.toNat?.bind fun k =>
+      if pcOf s k = some .cwriting then step s (.h k .cwriteEnd) else step s (.h k .writeEnd)
   | ["cc", k] =>
     match k.toNat? with
     | some k =>
-      let s := match pcOf s k with
-        | some pc => if pc.readable then tryStep s (.h k .closingSeen) else s
+      let gone := getD env.peerDone k false
+      -- moves of the environment, each justified by a harness event
+      let s := catchUpTls env s k
+      let s := if gone then tryAll s [.h k .tunnelEnd, .h k (.peeked false)] else s
+      let s := if getD env.aborted k false then tryStep s (.h k .writeErr) else s
+      let s := catchUpWrite s k
+      let s := match s.hs[k]? with
+        | some h =>
+          if h.pc.readable then
+            if s.closing then tryStep s (.h k .closingSeen)
+            else if gone ∨ getD env.aborted k false then tryStep s (.h k .readErr) else s
+          else s
         | none => s
       runAll s [.h k .closeConn, .h k .finish]
     | none => none
-  | ["call"] => step s .closeCall
+  | ["call"] => if s.cpc = .idle then step s .closeCall else step s .closeCall2
   | ["obs"] =>
     let s := if s.cpc = .called then tryStep s .closeChan else s
     if s.closing then some s else none
@@ -142,7 +212,9 @@ def applyEv (env : Env) (s : Sys) (ev : List String) : Option Sys :=
     step s .ret
   | ["resp", k, b] =>
     match k.toNat?, bit b with
-    | some k, some b => match s.hs[k]? with
+    | some k, some b =>
+      let s := catchUpWrite s k
+      match s.hs[k]? with
       | some h => match h.marks[getD env.resps k 0]? with
         | some m => if m.2.2 = b then some s else none
         -- the client can have read the last byte before the server-side write call has returned
@@ -151,8 +223,11 @@ def applyEv (env : Env) (s : Sys) (ev : List String) : Option Sys :=
     | _, _ => none
   | ["eof", k] =>
     match k.toNat? with
-    | some k => match pcOf s k with
-      | some pc => if pc = .closed ∨ pc = .done then some s else none
+    | some k => match s.hs[k]? with
+      | some h =>
+        -- the harness closed this connection's client / target end itself: the end-of-stream is its own
+        if getD env.peerDone k false ∨ getD env.aborted k false then some s else
+        if (h.pc = .closed ∨ h.pc = .done) ∧ (h.secure = false ∨ getD env.resps k 0 = h.marks.length) then some s else none
       | none => none
     | none => none
   | _ => none
@@ -161,8 +236,28 @@ def updEnv (env : Env) (ev : List String) : Env :=
   match ev with
   | ["snd", k, "f", rc] =>
     match k.toNat?, bit rc with
-    | some k, some rc => { env with sent := setPad env.sent k [] (getD env.sent k [] ++ [rc]) }
+    | some k, some rc => { env with sent := setPad env.sent k [] (getD env.sent k [] ++ [some rc]) }
     | _, _ => env
+  | ["snd", k, "c"] =>
+    match k.toNat? with
+    | some k => { env with sent := setPad env.sent k [] (getD env.sent k [] ++ [none]) }
+    | none => env
+  | ["tcl", k] =>
+    match k.toNat? with
+    | some k => { env with peerDone := setPad env.peerDone k false true }
+    | none => env
+  | ["cx", k] =>
+    match k.toNat? with
+    | some k => { env with aborted := setPad env.aborted k false true }
+    | none => env
+  | ["tls", k] =>
+    match k.toNat? with
+    | some k => { env with tls := setPad env.tls k false true }
+    | none => env
+  | ["h2", k] =>
+    match k.toNat? with
+    | some k => { env with h2 := setPad env.h2 k false true }
+    | none => env
   | ["resp", k, _] =>
     match k.toNat? with
     | some k => { env with resps := setPad env.resps k 0 (getD env.resps k 0 + 1) }
@@ -177,6 +272,11 @@ def accept : List String → Nat → Env → List Sys → String
     let ev := t.splitOn ":"
     let env1 := match ev with
       | ["snd", _, "f", _] => updEnv env ev
+      | ["snd", _, "c"] => updEnv env ev
+      | ["tcl", _] => updEnv env ev
+      | ["cx", _] => updEnv env ev
+      | ["tls", _] => updEnv env ev
+      | ["h2", _] => updEnv env ev
       | _ => env
     let cands' := (expandAll cands).filterMap fun s => applyEv env1 s ev
     let env2 := match ev with
